@@ -93,7 +93,7 @@ def step (st : State) (args : List String) : State × String :=
     | none => (st, "bad-op")
     | some s =>
       if op == "mon" || op == "burst" || op == "doneall" || op == "settle" || op == "stall" then (st, "mon")
-      else if op == "stallcut" then
+      else if op == "stallcut" || op == "racega" then
         -- the peer stops reading, goes on sending and disconnects: judged by the monitors; the connection is over
         (st.set id { s with returned := true, rlStopped := true, slStopped := true }, "mon")
       else if op == "gauges" then (st, if s.undefined then "undef" else if s.returned then "ok gone" else gauges s)
